@@ -87,7 +87,7 @@ def make_case(tier, seed, index):
     quirks = {"mbap_len": MBAP_LEN[index % len(MBAP_LEN)] if tr == "tcp" else None,
               "es_settings_len": ES_SETTINGS_LENS[index % len(ES_SETTINGS_LENS)] if fam == "ES" else None,
               # ... and an application that runs the library's logger at DEBUG level
-              "debug_log": index % 11 == 5,
+              "debug_log": index % 11 == 5, "warn_error": index % 5 == 3,
               # every other case has a valid clock; its year byte sweeps 0..255 (2000..2255)
               "clock": ((index * 37) % 256) if index % 2 == 0 else None}
     if fill == "step":
